@@ -19,9 +19,54 @@
  *     fill_boxes     op r g b a n (x1 y1 x2 y2 per box)
  *     fill_rects     op r g b a n (x y w h per rectangle)
  *     glyphs         op maskfmt sx sy mx my dx dy w h n (x y per glyph; the glyph image is M; maskfmt 0: no_mask)
+ *
+ *   H role hist fcode w h stride op WIN BACKA BACKB PLAINSRC PLAINDST
+ *       accessor history on ONE image X of format fcode (role s: X is the source, m: the mask, d: the
+ *       destination of a w x h composite with operator op; the other images are fresh a8r8g8b8 images).
+ *       hist is a string of modes, one per use of X: D = no callbacks installed (set_accessors (NULL, NULL)),
+ *       A / B = callback pair A / B installed.  The callbacks are not the identity: X is created over the
+ *       "window" buffer WIN, and pair A (B) redirects every access to the backing buffer BACKA (BACKB) and
+ *       counts calls.  After each use all three buffers, the plain destination, the call counts and the
+ *       result of the same request on fresh directly addressed images holding the effective contents are
+ *       logged (event Hist; judged by FormatsTrace!THist).
  */
 #include "vcommon.h"
 #include <pixman.h>
+
+/* ---- redirecting, counting callbacks for the accessor-history suite ---- */
+static intptr_t disp_a, disp_b;
+static long n_reads, n_writes;
+
+static uint32_t
+rd_at (const uint8_t *p, int size)
+{
+    n_reads++;
+    switch (size)
+    {
+    case 1: return *(const uint8_t *)p;
+    case 2: return *(const uint16_t *)p;
+    case 4: return *(const uint32_t *)p;
+    }
+    abort ();
+}
+
+static void
+wr_at (uint8_t *p, uint32_t value, int size)
+{
+    n_writes++;
+    switch (size)
+    {
+    case 1: *(uint8_t *)p = value; return;
+    case 2: *(uint16_t *)p = value; return;
+    case 4: *(uint32_t *)p = value; return;
+    }
+    abort ();
+}
+
+static uint32_t read_a (const void *src, int size) { return rd_at ((const uint8_t *)src + disp_a, size); }
+static uint32_t read_b (const void *src, int size) { return rd_at ((const uint8_t *)src + disp_b, size); }
+static void write_a (void *dst, uint32_t v, int size) { wr_at ((uint8_t *)dst + disp_a, v, size); }
+static void write_b (void *dst, uint32_t v, int size) { wr_at ((uint8_t *)dst + disp_b, v, size); }
 
 static uint32_t
 acc_read (const void *src, int size)
@@ -296,6 +341,82 @@ main (int argc, char **argv)
 	    fputs ("]", vt_out);
 	    vt_end ();
 	    free (D.init); free (D.work); free (S.init); free (S.work); free (M.init); free (M.work);
+	}
+	else if (kind[0] == 'H')
+	{
+	    char role[8], hist[16];
+	    unsigned fcode;
+	    int w, h, stride, op, len, plen, k, i;
+	    uint8_t *block, *win, *ba, *bb, *psrc0, *pdst0, *psrc, *pdst, *refx, *refd, *refs;
+	    uint8_t *bufs[5];
+	    pixman_image_t *x;
+	    if (fscanf (in, "%7s %15s %u %d %d %d %d", role, hist, &fcode, &w, &h, &stride, &op) != 7) return 3;
+	    len = stride * h;
+	    plen = w * 4 * h;
+	    for (i = 0; i < 5; i++)
+	    {
+		int n, j, want = i < 3 ? len : plen;
+		if (fscanf (in, "%131071s", tok) != 1) return 3;
+		n = (int)strlen (tok) / 2;
+		if (n != want) return 3;
+		if (posix_memalign ((void **)&bufs[i], 16, n + 16)) return 3;
+		for (j = 0; j < n; j++)
+		    bufs[i][j] = (uint8_t)(hexval (tok[2 * j]) * 16 + hexval (tok[2 * j + 1]));
+	    }
+	    /* window and the two backing stores live in one block, at fixed displacements */
+	    if (posix_memalign ((void **)&block, 16, 3 * (len + 64))) return 3;
+	    win = block; ba = block + len + 64; bb = block + 2 * (len + 64);
+	    memcpy (win, bufs[0], len); memcpy (ba, bufs[1], len); memcpy (bb, bufs[2], len);
+	    disp_a = ba - win; disp_b = bb - win;
+	    psrc0 = bufs[3]; pdst0 = bufs[4];
+	    psrc = malloc (plen + 16); pdst = malloc (plen + 16);
+	    refx = NULL; refd = malloc (plen + 16); refs = malloc (plen + 16);
+	    if (posix_memalign ((void **)&refx, 16, len + 16)) return 3;
+
+	    x = pixman_image_create_bits (fcode, w, h, (uint32_t *)win, stride);
+	    if (!x) return 3;
+	    vt_begin ("Hist");
+	    vt_str ("role", role); vt_str ("hist", hist);
+	    vt_w32 ("f", fcode); vt_int ("w", w); vt_int ("h", h); vt_int ("stride", stride); vt_int ("op", op);
+	    fputs (",\"steps\":[", vt_out);
+	    for (k = 0; hist[k]; k++)
+	    {
+		pixman_image_t *ps, *pd, *rx, *rs, *rd2;
+		uint8_t *eff = hist[k] == 'A' ? ba : hist[k] == 'B' ? bb : win;
+		if (hist[k] == 'A') pixman_image_set_accessors (x, read_a, write_a);
+		else if (hist[k] == 'B') pixman_image_set_accessors (x, read_b, write_b);
+		else pixman_image_set_accessors (x, NULL, NULL);
+		fprintf (vt_out, "%s{\"mode\":\"%c\"", k ? "," : "", hist[k]);
+		vt_bytes ("win0", win, len); vt_bytes ("a0", ba, len); vt_bytes ("b0", bb, len);
+		/* the reference: the same request on fresh directly addressed images holding the effective contents */
+		memcpy (refx, eff, len); memcpy (refs, psrc0, plen); memcpy (refd, pdst0, plen);
+		rx = pixman_image_create_bits (fcode, w, h, (uint32_t *)refx, stride);
+		rs = pixman_image_create_bits (PIXMAN_a8r8g8b8, w, h, (uint32_t *)refs, w * 4);
+		rd2 = pixman_image_create_bits (PIXMAN_a8r8g8b8, w, h, (uint32_t *)refd, w * 4);
+		if (role[0] == 's') pixman_image_composite32 ((pixman_op_t)op, rx, NULL, rd2, 0, 0, 0, 0, 0, 0, w, h);
+		else if (role[0] == 'm') pixman_image_composite32 ((pixman_op_t)op, rs, rx, rd2, 0, 0, 0, 0, 0, 0, w, h);
+		else pixman_image_composite32 ((pixman_op_t)op, rs, NULL, rx, 0, 0, 0, 0, 0, 0, w, h);
+		pixman_image_unref (rx); pixman_image_unref (rs); pixman_image_unref (rd2);
+		/* the use of X itself */
+		memcpy (psrc, psrc0, plen); memcpy (pdst, pdst0, plen);
+		ps = pixman_image_create_bits (PIXMAN_a8r8g8b8, w, h, (uint32_t *)psrc, w * 4);
+		pd = pixman_image_create_bits (PIXMAN_a8r8g8b8, w, h, (uint32_t *)pdst, w * 4);
+		n_reads = n_writes = 0;
+		if (role[0] == 's') pixman_image_composite32 ((pixman_op_t)op, x, NULL, pd, 0, 0, 0, 0, 0, 0, w, h);
+		else if (role[0] == 'm') pixman_image_composite32 ((pixman_op_t)op, ps, x, pd, 0, 0, 0, 0, 0, 0, w, h);
+		else pixman_image_composite32 ((pixman_op_t)op, ps, NULL, x, 0, 0, 0, 0, 0, 0, w, h);
+		pixman_image_unref (ps); pixman_image_unref (pd);
+		vt_int ("reads", n_reads); vt_int ("writes", n_writes);
+		vt_bytes ("win1", win, len); vt_bytes ("a1", ba, len); vt_bytes ("b1", bb, len);
+		vt_bytes ("out", pdst, plen);
+		vt_bytes ("refx", refx, len); vt_bytes ("refout", refd, plen);
+		fputs ("}", vt_out);
+	    }
+	    fputs ("]", vt_out);
+	    vt_end ();
+	    pixman_image_unref (x);
+	    for (i = 0; i < 5; i++) free (bufs[i]);
+	    free (block); free (psrc); free (pdst); free (refx); free (refd); free (refs);
 	}
 	else
 	{
